@@ -7,6 +7,7 @@ import (
 	"net/http"
 	"net/http/httptest"
 	"net/url"
+	"strconv"
 	"strings"
 	"sync"
 	"time"
@@ -49,6 +50,8 @@ func (d delegProvider) JWTProfileVerifier(ctx context.Context) *op.JWTProfileVer
 type assertWorld struct {
 	store *modelstore.Store
 	h     map[string]http.Handler // router -> handler
+	at    map[string]string       // router+client -> a live access token issued to that client
+	dyn   map[string]http.Handler // router -> handler of the issuer-from-host provider over the same storage
 }
 
 var (
@@ -82,14 +85,66 @@ func assertWorldFor(delegation bool) *assertWorld {
 	if err != nil {
 		panic(err)
 	}
-	dp := delegProvider{Provider: p, delegation: delegation}
+	// the provider's own JWTProfileVerifier (default subject check) unless the case asks for delegation
+	var dp op.OpenIDProvider = p
+	if delegation {
+		dp = delegProvider{Provider: p, delegation: true}
+	}
 	w.h["P"] = op.CreateRouter(dp)
 	w.h["L"] = op.RegisterLegacyServer(op.NewLegacyServer(dp, *op.DefaultEndpoints), op.AuthorizeCallbackHandler(dp))
+	// the same storage behind a provider whose issuer follows the request host (two tenants); tenant 1 has been in use before
+	dcfg := opdrv.DefaultCfg("P")
+	dcfg.Dyn = true
+	_, pd, err := opdrv.BuildProvider(store, dcfg)
+	if err != nil {
+		panic(err)
+	}
+	var dd op.OpenIDProvider = pd
+	if delegation {
+		dd = delegProvider{Provider: pd, delegation: true}
+	}
+	w.dyn = map[string]http.Handler{"P": op.CreateRouter(dd),
+		"L": op.RegisterLegacyServer(op.NewLegacyServer(dd, *op.DefaultEndpoints), op.AuthorizeCallbackHandler(dd))}
+	for _, router := range []string{"P", "L"} {
+		good := buildAssertion(M{"iss": "A", "sub": "iss", "aud": "issuer", "exp": 3600, "iat": -3, "by": "a2", "kid": "ka2", "alg": "ES256", "edit": "none"}, time.Now())
+		r := postForm(w.dyn[router], "/oauth/token", url.Values{"grant_type": {string(oidc.GrantTypeBearer)}, "assertion": {good}, "scope": {"openid"}})
+		if r.Status != 200 {
+			panic("harness: jwt-bearer grant at tenant 1 of the issuer-from-host provider failed: " + r.Body)
+		}
+	}
+	// one long-lived access token per router and client, for the introspection identity probe
+	store.ATLifetime = 24 * time.Hour
+	w.at = map[string]string{}
+	for _, router := range []string{"P", "L"} {
+		for _, client := range []string{"A", "B"} {
+			key, kid := "a2", "ka2"
+			if client == "B" {
+				key, kid = "b1", "kb1"
+			}
+			good := buildAssertion(M{"iss": client, "sub": "iss", "aud": "issuer", "exp": 3600, "iat": -3, "by": key, "kid": kid, "alg": "ES256", "edit": "none"}, time.Now())
+			form := url.Values{"grant_type": {"authorization_code"}, "code": {mintCode(w, w.h[router], client)}, "redirect_uri": {assertURI},
+				"client_assertion_type": {oidc.ClientAssertionTypeJWTAssertion}, "client_assertion": {good}}
+			r := postForm(w.h[router], "/oauth/token", form)
+			var body struct {
+				AccessToken string `json:"access_token"`
+			}
+			json.Unmarshal([]byte(r.Body), &body)
+			if body.AccessToken == "" {
+				panic("harness: could not prepare an access token for the introspection probe: " + r.Body)
+			}
+			w.at[router+client] = body.AccessToken
+		}
+	}
 	assertWorlds[delegation] = w
 	return w
 }
 
 func buildAssertion(a M, now time.Time) string {
+	return buildAssertionFor(a, now, opdrv.Issuer, "https://x.example.test")
+}
+
+// buildAssertionFor: issuer = what the abstract audience "issuer" stands for, x = the other audience
+func buildAssertionFor(a M, now time.Time, issuer, x string) string {
 	other := func(c string) string {
 		if c == "A" {
 			return "B"
@@ -116,13 +171,13 @@ func buildAssertion(a M, now time.Time) string {
 	}
 	switch S(a, "aud") {
 	case "issuer":
-		claims["aud"] = []string{opdrv.Issuer}
+		claims["aud"] = []string{issuer}
 	case "issuer+x":
-		claims["aud"] = []string{"https://x.example.test", opdrv.Issuer}
+		claims["aud"] = []string{x, issuer}
 	case "x":
-		claims["aud"] = []string{"https://x.example.test"}
+		claims["aud"] = []string{x}
 	case "issuerSlash":
-		claims["aud"] = []string{opdrv.Issuer + "/"}
+		claims["aud"] = []string{issuer + "/"}
 	}
 	if e := I(a, "exp"); e != absent {
 		claims["exp"] = now.Unix() + int64(e)
@@ -211,8 +266,34 @@ func AssertionCase(c *Case) M {
 			"client_assertion_type": {oidc.ClientAssertionTypeJWTAssertion}, "client_assertion": {assertion}}
 		r = postForm(h, "/oauth/token", form)
 		o["code"+router] = tokenOutcome(w, r)
+		// ---- identity probe: introspection of a token of the probe client, the request names the probe client next to the assertion
+		form = url.Values{"token": {w.at[router+probe]}, "client_id": {probe},
+			"client_assertion_type": {oidc.ClientAssertionTypeJWTAssertion}, "client_assertion": {assertion}}
+		r = postForm(h, "/oauth/introspect", form)
+		o["intro"+router] = introOutcome(r, probe)
+		// ---- grant_type=jwt-bearer at tenant B of an issuer-from-host provider: "issuer" = tenant B, the other audience = tenant 1
+		form = url.Values{"grant_type": {string(oidc.GrantTypeBearer)}, "assertion": {buildAssertionFor(a, now, opdrv.TenantB, opdrv.Issuer)}, "scope": {"openid"}}
+		req := httptest.NewRequest(http.MethodPost, opdrv.TenantB+"/oauth/token", strings.NewReader(form.Encode()))
+		req.Header.Set("Content-Type", "application/x-www-form-urlencoded")
+		o["tenant"+router] = tokenOutcome(w, opdrv.Serve(w.dyn[router], req))
 	}
 	return o
+}
+
+// introOutcome: accept = the token is reported active (only a caller in the token's audience is told so).
+func introOutcome(r *opdrv.RawResponse, probe string) M {
+	if r.Panic != "" {
+		return M{"v": "panic", "identity": "none", "detail": r.Panic}
+	}
+	var body struct {
+		Active bool   `json:"active"`
+		Sub    string `json:"sub"`
+	}
+	json.Unmarshal([]byte(r.Body), &body)
+	if r.Status != 200 || !body.Active {
+		return M{"v": "reject", "identity": "none", "detail": strconv.Itoa(r.Status)}
+	}
+	return M{"v": "accept", "identity": probe}
 }
 
 func identityName(id string) string {
